@@ -274,6 +274,39 @@ def failing_worker(rec):
         rec.violation('cache[PickleStorage,thr=True]:failing-worker-silent', 'failing save went unnoticed')
 
 
+def dead_worker_with_queued_task(rec):
+    """the schedule in which a task reaches the queue while the worker is dying (its liveness was checked just before, the queue
+    was drained just before the put): every later join_tasks() / put_task() must raise WorkerDied and must not block."""
+    from tenpy.tools.thread import Worker, WorkerDied
+
+    def boom():
+        raise RuntimeError('task fails')
+
+    def body():
+        out = []
+        w = Worker('verif worker', daemon=True)
+        with w:
+            w.put_task(boom)
+            w.worker_thread.join(10)                      # the worker has drained its queue and terminated
+            w.tasks.put((len, ([],), {}, None, None))      # the put of a put_task() whose liveness check was passed a moment earlier
+            for name, call in (('join_tasks', w.join_tasks), ('put_task', lambda: w.put_task(len, []))):
+                try:
+                    call()
+                    out.append(name + ':returned')
+                except WorkerDied:
+                    out.append(name + ':WorkerDied')
+        return out
+    st, val = _run_with_deadline(body, 15)
+    rec.case(('dead-worker-queued-task',))
+    if st == 'hang':
+        rec.violation('Worker:join_tasks-hangs-on-dead-worker', 'a task was queued while the worker died; join_tasks() blocks forever '
+                      'instead of raising WorkerDied')
+    elif st == 'exc':
+        rec.violation('Worker:dead-worker:exception', repr(val)[:200])
+    else:
+        rec.check(val == ['join_tasks:WorkerDied', 'put_task:WorkerDied'], 'Worker:dead-worker-not-reported', str(val))
+
+
 def event_history(rec, rng, n_ops):
     from tenpy.tools.events import EventHandler
     eh = EventHandler('x')
@@ -366,6 +399,7 @@ def run(rec):
                      sample=d if i == 0 and mode == 'lazy' else None)
     closing(rec)
     failing_worker(rec)
+    dead_worker_with_queued_task(rec)
     for i in range(60 if quick else 2000):
         rec.begin(f'event history #{i}')
         h = event_history(rec, rng, rng.randint(3, 12))
